@@ -18,6 +18,12 @@ def decCfgOf : String → Option DecCfg
   | "ber" => some Generated.berDecByType | "cer" => some Generated.cerDecByType
   | "der" => some Generated.derDecByType | _ => none
 
+def anyTagOf : Sexp → Option AnyTag
+  | .list [.atom "none"] => some .none
+  | .list [.atom "i", .atom c, .atom n] => do some (.implicit (← clsOf c) (← n.toNat?))
+  | .list [.atom "e", .atom c, .atom n] => do some (.explicit (← clsOf c) (← n.toNat?))
+  | _ => none
+
 def tagStr (t : Tag) : String := s!"{clsStr t.cls}{if t.constructed then "c" else "p"}{t.num}"
 
 def handle : List Sexp → Option String
@@ -36,6 +42,22 @@ def handle : List Sexp → Option String
       let b ← hexArg hex
       match decodeOne cfg t b with
       | .ok (v, rest) => some s!"ok {valStr v} {hexOut rest}"
+      | .error e => some s!"err {errStr e}"
+  | [.atom "OPENENC", .atom codec, .atom dm, .atom chunk, idTy, atag, g, ti, w] => do
+      let cfg ← encCfgOf codec
+      let o : EncOpts := { defMode := dm = "1", maxChunk := (← chunk.toNat?) }
+      match encodeOpen cfg o (← tyOf idTy) (← anyTagOf atag) (← valOf g) (← tyOf ti) (← valOf w) with
+      | .ok b => some s!"ok {hexOut b}"
+      | .error e => some s!"err {errStr e}"
+  | [.atom "OPENDEC", .atom codec, idTy, atag, .atom resolve, .atom hex, ti] => do
+      let cfg ← decCfgOf codec
+      let b ← hexArg hex
+      let map : Val → Option Ty := match ti with
+        | .atom "-" => fun _ => none
+        | t => fun _ => tyOf t
+      match decodeOpen cfg (← tyOf idTy) (← anyTagOf atag) map (resolve = "1") b with
+      | .ok (r, rest) =>
+        some s!"ok {valStr r.id} {hexOut r.raw} {match r.inner with | some w => valStr w | none => "-"} {hexOut rest}"
       | .error e => some s!"err {errStr e}"
   | [.atom "X690DER", t, v] => do
       let t ← tyOf t
